@@ -914,7 +914,7 @@ def check_variant(R, prog, var, res, tag, model_out):
         if wfclass == 'min>max-or-max=0':
             passes = max([obs.count('cv:%d:0' % e['id']) + obs.count('cv:%d:1' % e['id'])
                           for e in all_eqs(prog)] + [0])
-            R.count('excluded-point:min>max passes observed: %d' % passes)
+            R.count('excluded-point:min>max convergence queries observed: %d' % passes)
     else:
         sr = SpecRun(prog, var, res['snaps'])
         try:
